@@ -649,6 +649,24 @@ async fn run_async(ops: Vec<Vec<String>>, root: PathBuf, tp: Arc<ThreadPool>) ->
                                 why.push(format!("[C01] ranged download [{},{}) of {} differs", a, b, f.name));
                             }
                         }
+                        // a range that runs past the end of the file (the last block of a reader with a fixed block size): the bytes
+                        // from its start to the end of the file, and that many reported
+                        for (a, b) in [(n / 2, n + 1000), (n - 1, n + 1), (n / 3 + 1, 2 * n + 7)] {
+                            if a == 0 {
+                                continue;
+                            }
+                            let outp = base.join(format!("dlr_{}", f.name));
+                            let _ = std::fs::remove_file(&outp);
+                            let r = dl
+                                .smudge_file_from_pointer(&pf, &OutputProvider::File(FileProvider::new(outp.clone())), Some(cas_types::FileRange { start: a, end: b }), None)
+                                .await;
+                            let got = std::fs::read(&outp).unwrap_or_default();
+                            match r {
+                                Ok(k) if got == f.content[a as usize..] && k == n - a => {},
+                                Ok(k) => why.push(format!("[C01] ranged download [{},{}) past the end of {} ({} bytes): {} bytes reported, {} written, {} expected", a, b, f.name, n, k, got.len(), n - a)),
+                                Err(e) => why.push(format!("[C01] ranged download [{},{}) past the end of {} failed: {:?}", a, b, f.name, e)),
+                            }
+                        }
                     }
                 }
                 out.push(("obs", format!("D files={}", files.len())));
